@@ -209,8 +209,37 @@ def run_harness_file(casefile, outfile, ncases, timeout_s=3):
             return
 
 
-def run_cases(cases, tag, shards=NCPU, timeout_s=3):
-    """Run cases on the real code. Returns list of CaseResult in order."""
+def run_cases(cases, tag, shards=NCPU, timeout_s=3, confirm_s=20):
+    """Run cases on the real code. Returns list of CaseResult in order. A hang or crash seen under the
+    short watchdog is confirmed by re-running that case alone under a longer one (machine load must not
+    turn into a false alarm)."""
+    results = _run_cases_once(cases, tag, shards, timeout_s)
+    if confirm_s and confirm_s > timeout_s:
+        redo = []
+        for i, r in enumerate(results):
+            bad_status = r.status in ("TIMEOUT", "CRASH", "MISSING", None)
+            bad_inputs = sorted(set(k[1] for k, v in r.results.items() if v.split(" ")[0] in ("TIMEOUT", "CRASH")))
+            if bad_status or bad_inputs:
+                redo.append((i, bad_status, bad_inputs))
+        for i, bad_status, bad_inputs in redo[:40]:
+            c = cases[i]
+            if bad_status:
+                r2 = _run_cases_once([c], tag + "_confirm", 1, confirm_s)[0]
+                r2.case = c
+                results[i] = r2
+            else:
+                sub = Case(c.id, c.grammar, [c.inputs[j] for j in bad_inputs], c.algo, c.table, c.run, c.flags, c.lexer, c.meta)
+                r2 = _run_cases_once([sub], tag + "_confirm", 1, confirm_s)[0]
+                for n, j in enumerate(bad_inputs):
+                    for algo in ("LR", "GLR"):
+                        if (algo, n) in r2.results:
+                            results[i].results[(algo, j)] = r2.results[(algo, n)]
+                    if n in r2.matches:
+                        results[i].matches[j] = r2.matches[n]
+    return results
+
+
+def _run_cases_once(cases, tag, shards, timeout_s):
     os.makedirs(WORK, exist_ok=True)
     shards = max(1, min(shards, len(cases)))
     groups = [[] for _ in range(shards)]
